@@ -16,6 +16,7 @@ import pandas as pd
 import xarray as xr
 
 NODATA = -3000
+BIG_FRACTION = 0.0  # set by the thorough tier
 
 # ---------------------------------------------------------------------------
 # array <-> json
@@ -229,6 +230,11 @@ def gen_scenario(rng, ops=None, force=None):
     X = rng.randint(1, 6)
     if "shape" in force:
         T, Y, X = force["shape"]
+    elif BIG_FRACTION and rng.random() < BIG_FRACTION:
+        # thorough tier: a share of larger cubes (more tasks per graph, longer series)
+        T = rng.randint(25, 48)
+        Y = rng.randint(4, 10)
+        X = rng.randint(4, 10)
     npseed = rng.randrange(2**32)
     nprng = np.random.Generator(np.random.PCG64(npseed))
     layout = list(rng.choice(LAYOUTS))
